@@ -122,9 +122,40 @@ func runC07(p *core.Program, r *core.Report) {
 			}
 		}
 	}
+	// callers inside the file
+	callers := map[string]map[string]bool{}
+	for _, f := range all {
+		for _, in := range path.Instrs(f) {
+			if call, ok := in.(ssa.CallInstruction); ok {
+				if cal := path.StaticCallee(call); cal != nil {
+					if callers[cal.Name()] == nil {
+						callers[cal.Name()] = map[string]bool{}
+					}
+					callers[cal.Name()][f.Name()] = true
+				}
+			}
+		}
+	}
+	prim := map[string]bool{"moveAfter": true, "addAfter": true, "remove": true, "newLRUList": true}
+	var onlyFromPrims func(w string, seen map[string]bool) bool
+	onlyFromPrims = func(w string, seen map[string]bool) bool {
+		if prim[w] {
+			return true
+		}
+		if seen[w] || len(callers[w]) == 0 {
+			return false
+		}
+		seen[w] = true
+		for cl := range callers[w] {
+			if !onlyFromPrims(cl, seen) {
+				return false
+			}
+		}
+		return true
+	}
 	for w := range writers {
-		ok := w == "moveAfter" || w == "addAfter" || w == "remove" || w == "newLRUList"
-		c.ob("AG1", "cache."+w, "writes node links", "-", ok, "a function other than the list primitives (moveAfter, addAfter, remove, newLRUList) writes next/prev links")
+		ok := onlyFromPrims(w, map[string]bool{})
+		c.ob("AG1", "cache."+w, "writes node links", "-", ok, "next/prev links are written by a function that is neither a list primitive (moveAfter, addAfter, remove, newLRUList) nor a helper called only from them (the shape rule SH1 covers exactly those)")
 	}
 
 	// ---- accessor ends (AG7 table)
